@@ -894,8 +894,25 @@ class OmniParser(PVLParser):
     all forms of "PVL" that are thrown at it.
     """
 
+    def _in_comment(self, pos: int) -> bool:
+        """Returns True if the character at *pos* of the document is
+        inside a comment (as far as can be told by looking for the
+        nearest comment delimiters around it).
+        """
+        for c_begin, c_end in self.grammar.comments:
+            b = self.doc.rfind(c_begin, 0, pos)
+            if b != -1:
+                e = self.doc.find(c_end, b + len(c_begin))
+                if e == -1 or e >= pos:
+                    return True
+        return False
+
     def _empty_value(self, pos):
+        # The equals sign of the parameter is the last one before *pos*,
+        # not counting any that are part of a comment.
         eq_pos = self.doc.rfind("=", 0, pos)
+        while eq_pos > 0 and self._in_comment(eq_pos):
+            eq_pos = self.doc.rfind("=", 0, eq_pos)
         lc = linecount(self.doc, eq_pos)
         self.errors.append(lc)
         return EmptyValueAtLine(lc)
